@@ -143,3 +143,87 @@ def _hp_setup(h):
 
 
 HandlePacket.setup = _hp_setup
+
+
+# ------------------------------------------------------------------------------------------- flavours
+import collections
+
+from mysensors import task as T
+
+
+def _flavour_tasks(h, cls, log):
+    tr = Modelled("transport")
+    tr.attrs["send"] = ModelFn("transport.send", lambda it, a, k: log.append(a[0]) if a[0] is not None else None)
+    t = Obj(cls, name="tasks")
+    t.fields.update(queue=collections.deque(), transport=tr, persistence=None, ota=None, _cancel_save=None)
+    if cls is T.SyncTasks:
+        ev = Modelled("Event")
+        state = {"iterations": 0}
+
+        def is_set(it, a, k):
+            # the pump runs until the queue is drained
+            state["iterations"] += 1
+            return state["iterations"] > 1 and not t.fields["queue"]
+
+        ev.attrs["is_set"] = ModelFn("is_set", is_set)
+        t.fields["_stop_event"] = ev
+    return t
+
+
+def _two_lines(h, tasks):
+    """line 1 makes the gateway hand a command to the transport (e.g. the wake-up burst of node 1) and has no
+    direct reply; line 2 (from another node) is answered directly"""
+    burst = h.it.env["burst"]
+    reply2 = h.it.env["reply2"]
+
+    def logic1(it, fn, a, k):
+        it.call(it.getattr(tasks, "add_job"), [Opaque("str", lambda it2, f2, a2, k2: burst), "queued-line"], {})
+        return None
+
+    def logic2(it, fn, a, k):
+        return reply2
+
+    return Opaque("logic(line1)", logic1), Opaque("logic(line2)", logic2)
+
+
+def _both_flavours(sync_tasks, async_tasks, l1s, l2s, l1a, l2a):
+    # the reader thread queues both lines before the pump gets to run (an arrival schedule the threaded flavour allows)
+    sync_tasks.add_job(l1s, "line1")
+    sync_tasks.add_job(l2s, "line2")
+    sync_tasks._poll_queue()
+    # the asyncio flavour handles each line as it arrives
+    async_tasks.add_job(l1a, "line1")
+    async_tasks.add_job(l2a, "line2")
+    return None
+
+
+@contract("mysensors.task:SyncTasks._poll_queue", props=["C19"], name="sync_pump.order")
+class FlavoursSameOrder:
+    """the sequence of emitted commands is a function of the lines alone: same for both flavours"""
+
+    lemma = True
+    params = ["sync_tasks", "async_tasks", "l1s", "l2s", "l1a", "l2a"]
+    body = _both_flavours
+
+    def setup(h):
+        import time as _time
+
+        slog, alog = [], []
+        h.ctx.ghost["sync_sent"] = slog
+        h.ctx.ghost["async_sent"] = alog
+        h.it.env["burst"] = h.sym("str", "burst_for_node1")
+        h.it.env["reply2"] = h.sym("str", "reply_for_node2")
+        st = _flavour_tasks(h, T.SyncTasks, slog)
+        at = _flavour_tasks(h, T.AsyncTasks, alog)
+        l1s, l2s = _two_lines(h, st)
+        l1a, l2a = _two_lines(h, at)
+        h.it.models[id(_time.sleep)] = ModelFn("time.sleep", lambda it, a, k: None)
+        h.it.models[id(same_emission_order)] = ModelFn("same_emission_order", lambda it, a, k: [id(x) for x in slog] == [id(x) for x in alog])
+        return [st, at, l1s, l2s, l1a, l2a], {}
+
+    raises = {}
+    ensures = {"same-order": lambda old, sync_tasks, async_tasks, l1s, l2s, l1a, l2a, result: same_emission_order()}
+
+
+def same_emission_order():
+    return True
